@@ -36,6 +36,7 @@ type revalidator struct {
 	c    *pieceCtx
 	post map[string]int // 0 unknown, 1 true, 2 false
 	busy map[string]bool
+	ne   *NilEnv
 }
 
 func (c *pieceCtx) reval() *revalidator {
@@ -54,6 +55,24 @@ func (rv *revalidator) reqs(f lockedFact, depth int) []edgeReq {
 			// pol the fact holds when every return of the helper that can yield pol has it established
 			if call, isCall := cond.(*ssa.Call); isCall && rv.outcomeEstablishes(call, pol, f, depth) {
 				return true
+			}
+			// … of a helper that answers with an error (if err := ps.checkAdd(…); err != nil { return }) or with a tuple
+			// (ok, err := ps.finalisable(index)): the edge on which the error is nil / the boolean is pol
+			if x, isNil, okn := nilFact(Guard{Cond: cond, Pol: pol}); okn && isNil && isErrorType(x.Type()) {
+				if call, idx := callOfValue(x); call != nil && rv.outcomeEstablishesX(call, idx, 0, f, depth) {
+					return true
+				}
+			}
+			if ex, isEx := cond.(*ssa.Extract); isEx && isBoolType(ex.Type()) {
+				if call, isC := ex.Tuple.(*ssa.Call); isC {
+					kind := 2
+					if pol {
+						kind = 1
+					}
+					if rv.outcomeEstablishesX(call, ex.Index, kind, f, depth) {
+						return true
+					}
+				}
 			}
 			if !f.edge(cond, pol) {
 				return false
@@ -168,6 +187,71 @@ func (rv *revalidator) outcomeEstablishes(call *ssa.Call, pol bool, f lockedFact
 	}
 	if depth == 0 {
 		rv.post[key] = 2 // a failure found under a depth cut is not final
+	}
+	return false
+}
+
+// outcomeEstablishesX: as outcomeEstablishes, for result idx of a helper with any number of results; kind 0: the (error)
+// result is nil, 1: the boolean result is true, 2: false.
+func (rv *revalidator) outcomeEstablishesX(call *ssa.Call, idx int, kind int, f lockedFact, depth int) bool {
+	h := call.Call.StaticCallee()
+	if h == nil || relPkg(h) != rv.c.la.pkg || h.Blocks == nil || depth > 3 || call.Call.IsInvoke() {
+		return false
+	}
+	if f.retarget != nil {
+		nf, ok := f.retarget(call, h)
+		if !ok {
+			return false
+		}
+		f = nf
+	}
+	key := fmt.Sprintf("%p/%s/x%d/%d", h, f.name, idx, kind)
+	switch rv.post[key] {
+	case 1:
+		return true
+	case 2:
+		return false
+	}
+	if rv.busy == nil {
+		rv.busy = map[string]bool{}
+	}
+	if rv.busy[key] {
+		return false
+	}
+	rv.busy[key] = true
+	defer delete(rv.busy, key)
+	if rv.ne == nil {
+		rv.ne = newNilEnv(rv.c.p)
+	}
+	ok, any := true, false
+	for _, ret := range returnsOf(h) {
+		res := retResults(ret)
+		if idx >= len(res) {
+			ok = false
+			break
+		}
+		switch kind {
+		case 0:
+			if !isNilConst(res[idx]) && rv.ne.At(res[idx], ret.Block()) == NonNil {
+				continue
+			}
+		case 1, 2:
+			if b, isb := constBool(res[idx]); isb && b != (kind == 1) {
+				continue
+			}
+		}
+		any = true
+		if good, _ := rv.establishedAt(ret, f, depth+1); !good {
+			ok = false
+			break
+		}
+	}
+	if ok && any {
+		rv.post[key] = 1
+		return true
+	}
+	if depth == 0 {
+		rv.post[key] = 2
 	}
 	return false
 }
